@@ -78,7 +78,7 @@ def _matches(exp: str, got: str) -> bool:
 def _event(op: dict, res: str, used: str, usedpx: str, obs: dict) -> dict:
     return {"k": op["k"], "set": op["set"], "n": op["n"], "a": op["a"], "res": res, "used": used,
             "usedpx": usedpx, "eff": {st: [W.show(r) for r in v] for st, v in obs["eff"].items()},
-            "px": obs["px"], "gate": obs["gate"]}
+            "px": obs["px"], "gate": obs["gate"], "clr": obs["clr"]}
 
 
 def _ov_to_init(state: dict, n: int) -> dict:
@@ -105,15 +105,20 @@ def _compare(world: W.World, edge: dict, res: str, used: str, usedpx: str, obs: 
                     f"{to['m'][i]}) {pxtab[to['m'][i]]}")
     for st in W.FAM_SETTINGS[world.fam]:
         got = [W.show(r) for r in obs["eff"][st]]
-        if got[0] == "skip:0":
-            continue
-        exp = to["eff"] if st == cur else [defaults[st]] * world.n
-        if got != exp:
+        # untouched settings show their defaults (they do not exist above / beside the style class)
+        exp = to["eff"] if st == cur else [defaults[st] if world.in_family(i) else "na:0"
+                                           for i in range(1, world.n + 1)]
+        if any(g != "skip:0" and g != x for g, x in zip(got, exp)):  # skip = not observed at this step
             return f"effective {W.LONG[st]} per node {got}, spec {exp}"
-    if obs["gate"][0] != "skip":
+    if "skip" not in obs["gate"]:
+        # (the trees of the other settings have no abstract class: every class has a gate / a clear())
         exp = to["gate"] if cur == "fs" else [("shut" if world.is_class(i) else "na") for i in range(1, world.n + 1)]
         if obs["gate"] != exp:
             return f"instantiation gate per node {obs['gate']}, spec {exp}"
+        exp = to["clr"] if cur == "fs" else [(defaults["clr"] if world.is_class(i) else "na")
+                                             for i in range(1, world.n + 1)]
+        if obs["clr"] != exp:
+            return f"clear() on an unsupported terminal per node {obs['clr']}, spec {exp}"
     return ""
 
 
@@ -124,8 +129,8 @@ def replay_walk(task: dict) -> dict:
     fam, cur = first["fam"], first["cur"]
     par, nc = task["par"], task["nc"]
     gt = task["geos"][(task["idx"] + task["wseed"]) % len(task["geos"])]
-    dm, fl = task["dm"], task["fl"]
-    world = W.World(fam, par, nc, wseed, gt["g"], dm, fl)
+    dm, fl, real = task["dm"], task["fl"], task["real"]
+    world = W.World(fam, par, nc, wseed, gt["g"], dm, fl, real)
     pxtab = gt["px"]
     out = {"steps": 0, "mismatches": [], "abandoned": False, "resyncs": 0}
     try:
@@ -143,7 +148,8 @@ def replay_walk(task: dict) -> dict:
             if not diff:
                 continue
             out["mismatches"].append(
-                {"fam": fam, "par": par, "nc": nc, "dm": dm, "fl": fl, "geo": world.geo, "init": init, "ev": events,
+                {"fam": fam, "par": par, "nc": nc, "dm": dm, "fl": fl, "real": real, "geo": world.geo, "init": init,
+                 "ev": events,
                  "wseed": wseed,
                  "diff": diff, "walk": task["idx"], "step": i, "edge": edge})
             # resynchronise the real classes with the spec state and go on (keeps edge coverage)
@@ -167,19 +173,27 @@ def replay_walk(task: dict) -> dict:
 
 # ------------------------------------------------------------------ code -> spec
 def gen_tree(rng: random.Random, tier: str):
-    nc = rng.randint(3, 8 if tier == "quick" else 11)
-    par = [0]
-    for i in range(2, nc + 1):
+    """Random tree below the REAL ancestry BaseImage > GraphicsImage > {style, other style}."""
+    real = ["BaseImage", "GraphicsImage", "style", "other"]
+    par = [0, 1, 2, 2]
+    nu = rng.randint(2, 7 if tier == "quick" else 10)  # user subclasses
+    family = [3]
+    for _ in range(nu):
+        i = len(par) + 1
         # favour deep chains with a few forks
-        par.append(rng.choice([i - 1, i - 1, i - 1, rng.randint(1, i - 1)]))
+        par.append(rng.choice([family[-1], family[-1], family[-1], rng.choice(family)]))
+        family.append(i)
+        real.append("")
+    nc = len(par)
     ni = rng.randint(2, 4)
     for _ in range(ni):
-        par.append(rng.choice([nc, rng.randint(1, nc), rng.randint(max(1, nc - 2), nc)]))
-    # some classes are declared with a metaclass derived from their parent's metaclass
-    dm = [0] + [int(rng.random() < 0.3) for _ in range(nc - 1)] + [0] * ni
+        par.append(rng.choice([family[-1], rng.choice(family), rng.choice(family[-3:])]))
+        real.append("")
+    # some user classes are declared with a metaclass derived from their parent's metaclass
+    dm = [0] * 4 + [int(rng.random() < 0.3) for _ in range(nu)] + [0] * ni
     # ... and some define __len__ returning 0 (their instances are falsy objects)
-    fl = [0] + [int(rng.random() < 0.3) for _ in range(nc - 1)] + [0] * ni
-    return par, nc, dm, fl
+    fl = [0] * 4 + [int(rng.random() < 0.3) for _ in range(nu)] + [0] * ni
+    return par, nc, dm, fl, real
 
 
 VALID = {
@@ -199,17 +213,21 @@ INVALID = {
 METHODS = {"kitty": ["lines", "whole"], "iterm2": ["lines", "whole", "anim"]}
 
 
-def gen_ops(rng: random.Random, fam: str, par, nc, length: int) -> list[dict]:
+def gen_ops(rng: random.Random, fam: str, par, nc, length: int, real=None) -> list[dict]:
     n = len(par)
+    real = real or ["style"] + [""] * (n - 1)
+    fam_nodes = [i + 1 for i, r in enumerate(real) if r in ("style", "")]   # style class and below
+    fam_classes = [i for i in fam_nodes if i <= nc]
     settings = W.FAM_SETTINGS[fam]
     weights = [5, 2] if fam == "kitty" else [5, 2, 3, 3, 1]
     ops = []
     for _ in range(length):
         st = rng.choices(settings, weights)[0]
         r = rng.random()
-        node = rng.randint(1, n)
-        if st in ("fs", "nb") and r < 0.85:
-            node = rng.randint(1, nc)  # mostly the (class-only) legal target
+        # forced_support exists on every class incl. the real ancestors; the rest at / below the style
+        node = rng.randint(1, n) if st == "fs" else rng.choice(fam_nodes)
+        if st in ("fs", "nb") and r < 0.85:  # mostly the (class-only) legal target
+            node = rng.randint(1, nc) if st == "fs" else rng.choice(fam_classes)
         if st == "rm" and r < 0.14:
             ov = rng.choice([W.UNSET] + [W.rec("str", 0, m) for m in METHODS[fam]])
             ops.append({"k": "render", "set": "rm", "n": node, "a": ov})
@@ -229,7 +247,8 @@ def record(task: dict) -> dict:
     fam, par, nc = task["fam"], task["par"], task["nc"]
     dm = task.get("dm") or [0] * len(par)
     fl = task.get("fl") or [0] * len(par)
-    world = W.World(fam, par, nc, task["wseed"], task.get("geo"), dm, fl)
+    real = task.get("real") or ["style"] + [""] * (len(par) - 1)
+    world = W.World(fam, par, nc, task["wseed"], task.get("geo"), dm, fl, real)
     try:
         init = task.get("init") or W.clean_init(world.n)
         if task.get("init"):
@@ -243,16 +262,18 @@ def record(task: dict) -> dict:
             ev.append(_event(op, res, used, usedpx, world.observe(render=True, gate=True)))
     finally:
         world.close()
-    return {"fam": fam, "par": par, "nc": nc, "dm": dm, "fl": fl, "geo": world.geo, "init": init, "ev": ev}
+    return {"fam": fam, "par": par, "nc": nc, "dm": dm, "fl": fl, "real": real, "geo": world.geo, "init": init,
+            "ev": ev}
 
 
 # ------------------------------------------------------------------ verdicts
 def _trace_json(t: dict) -> dict:
-    return {k: t[k] for k in ("fam", "par", "nc", "dm", "fl", "geo", "init", "ev")}
+    return {k: t[k] for k in ("fam", "par", "nc", "dm", "fl", "real", "geo", "init", "ev")}
 
 
 def _scenario(t: dict, wseed: int) -> dict:
-    return {"fam": t["fam"], "par": t["par"], "nc": t["nc"], "dm": t["dm"], "fl": t["fl"], "geo": t["geo"], "init": t["init"],
+    return {"fam": t["fam"], "par": t["par"], "nc": t["nc"], "dm": t["dm"], "fl": t["fl"], "real": t["real"], "geo": t["geo"],
+            "init": t["init"],
             "wseed": wseed,
             "ops": [{k: e[k] for k in ("k", "set", "n", "a")} for e in t["ev"]]}
 
@@ -260,7 +281,8 @@ def _scenario(t: dict, wseed: int) -> dict:
 def _describe(t: dict, v: dict) -> str:
     at = v["at"]
     lines = [f"clause {v['verdict']!r} about {W.LONG.get(v['set'], v['set'])} at operation {at} of {len(t['ev'])}; "
-             f"family {t['fam']}, tree par={t['par']} (classes 1..{t['nc']}, 1 = the real style class; "
+             f"family {t['fam']}, tree par={t['par']} (classes 1..{t['nc']}; real classes: "
+             f"{ {i + 1: r for i, r in enumerate(t['real']) if r} }; "
              f"declared with a derived metaclass: {[i + 1 for i, d in enumerate(t['dm']) if d]}, "
              f"defining __len__ -> 0 (falsy instances): {[i + 1 for i, d in enumerate(t['fl']) if d]}), "
              f"geometry {t['geo']}"]
@@ -275,6 +297,7 @@ def _describe(t: dict, v: dict) -> str:
         lines.append(f"  observed {W.LONG[st]} per node: {e['eff'][st]}")
         lines.append(f"  observed data size (px) of the no-override render per node: {e['px']}")
         lines.append(f"  observed instantiation gate: {e['gate']}")
+        lines.append(f"  observed clear() on an unsupported terminal: {e['clr']}")
     return "\n".join(lines)
 
 
@@ -325,7 +348,7 @@ def _replay(rep: Report, replay: dict) -> None:
         return
     stubs.install()
     t = record({"fam": sc["fam"], "par": sc["par"], "nc": sc["nc"], "init": sc.get("init"), "geo": sc.get("geo"),
-                "dm": sc.get("dm"), "fl": sc.get("fl"),
+                "dm": sc.get("dm"), "fl": sc.get("fl"), "real": sc.get("real"),
                 "ops": sc["ops"], "wseed": sc.get("wseed", 0)})
     rep.evaluations += len(t["ev"])
     t["wseed"] = sc.get("wseed", 0)
@@ -372,10 +395,10 @@ def main(rep: Report, replay: dict | None) -> None:
             tasks = []
             for i in range(ntr):
                 fam = "iterm2" if i % 5 < 3 else "kitty"
-                par, nc, dm, fl = gen_tree(rng, rep.tier)
+                par, nc, dm, fl, real = gen_tree(rng, rep.tier)
                 length = rng.randint(8, 16) if quick else rng.randint(12, 40)
-                tasks.append({"fam": fam, "par": par, "nc": nc, "dm": dm, "fl": fl, "wseed": rng.randrange(1 << 30),
-                              "ops": gen_ops(rng, fam, par, nc, length)})
+                tasks.append({"fam": fam, "par": par, "nc": nc, "dm": dm, "fl": fl, "real": real,
+                              "wseed": rng.randrange(1 << 30), "ops": gen_ops(rng, fam, par, nc, length, real)})
             recorded = pool.map(record, tasks, chunksize=4)
             for t, task in zip(recorded, tasks):
                 t["wseed"] = task["wseed"]
@@ -398,13 +421,14 @@ def main(rep: Report, replay: dict | None) -> None:
             lap("wait_edge_dump")
             g = graph.from_result(res_e)
             defaults = {}
-            tree = geos = metas = None
+            trees = {}
+            geos = None
             for d in res_e.tagged("DEFAULTS"):
                 defaults[d["fam"]] = {x["set"]: x["v"] for x in d["eff"]}
-                tree = (d["par"], d["nc"])
+                defaults[d["fam"]]["clr"] = d["clr"]
+                trees[(d["fam"], d["cur"])] = d
                 geos = d["geos"]
-                metas = d["variants"]
-            if not g.edges or tree is None or set(defaults) != {"kitty", "iterm2"}:
+            if not g.edges or not trees or set(defaults) != {"kitty", "iterm2"}:
                 raise tlc.MachineryError("c20: edge dump is empty / has no DEFAULTS line")
             walks = g.walks(max_len=60)
             if g.unreachable_edges:
@@ -412,13 +436,15 @@ def main(rep: Report, replay: dict | None) -> None:
             # metaclass variant per walk: rotating; the walks of the global setting under every variant
             wtasks = []
             for i, w in enumerate(walks):
+                tr = trees[(w[0]["from"]["fam"], w[0]["from"]["cur"])]
+                metas = tr["variants"]
                 if w[0]["from"]["cur"] == "nb":
                     variants = metas
                 else:
                     variants = [metas[(i + rep.seed) % len(metas)]]
                 for cv in variants:
-                    wtasks.append({"idx": i, "walk": w, "defaults": defaults[w[0]["from"]["fam"]], "par": tree[0],
-                                   "nc": tree[1], "dm": cv["dm"], "fl": cv["fl"], "geos": geos, "wseed": rep.seed * 1000003 + i})
+                    wtasks.append({"idx": i, "walk": w, "defaults": defaults[w[0]["from"]["fam"]], "par": tr["par"],
+                                   "nc": tr["nc"], "real": tr["real"], "dm": cv["dm"], "fl": cv["fl"], "geos": geos, "wseed": rep.seed * 1000003 + i})
             wtasks.sort(key=lambda t: -len(t["walk"]))
             lap("build_walks")
             results = pool.map(replay_walk, wtasks, chunksize=2)
@@ -467,7 +493,7 @@ def main(rep: Report, replay: dict | None) -> None:
     for e in g.edges:
         rep.distinct.add(("edge", graph.key(e["from"]), graph.key(e["op"])))
     rep.extra["replay"] = {"edges": len(g.edges), "model_states": g.nodes, "walks": len(walks), "walk_runs": len(wtasks),
-                           "class_variants": len(metas), "steps": steps,
+                           "trees": {f"{k[0]}/{k[1]}": v["par"] for k, v in trees.items()}, "steps": steps,
                            "disagreeing_steps": len(mism), "resyncs": sum(r["resyncs"] for r in results),
                            "walks_abandoned": sum(1 for r in results if r["abandoned"])}
     if any(r["abandoned"] for r in results):
